@@ -1,4 +1,518 @@
-//! C09 monitor (not written yet).
-use crate::ctx::Ctx;
+//! C09 — unbounded and 128-bit integer codecs implement (S)LEB128 exactly.
+use crate::ctx::{catch, hex, Ctx};
+use crate::gen::values::{gen_bigint, gen_biguint};
+use crate::model::leb::*;
+use crate::rng::{hash_bytes, Rng};
+use candid::types::leb128 as cleb;
+use candid::{Decode, Encode, IDLArgs, Int, Nat};
+use num_bigint::{BigInt, BigUint};
+use serde_json::json;
+use std::collections::BTreeMap;
 
-pub fn run(_ctx: &mut Ctx) {}
+const SENTINEL: u8 = 0xAB;
+
+fn u128_of(v: &BigUint) -> Option<u128> {
+    let d = v.to_u64_digits();
+    match d.len() {
+        0 => Some(0),
+        1 => Some(d[0] as u128),
+        2 => Some(d[0] as u128 | (d[1] as u128) << 64),
+        _ => None,
+    }
+}
+fn i128_of(v: &BigInt) -> Option<i128> {
+    let min = BigInt::from(i128::MIN);
+    let max = BigInt::from(i128::MAX);
+    if *v < min || *v > max {
+        return None;
+    }
+    let (sign, mag) = v.clone().into_parts();
+    let m = u128_of(&mag)?;
+    Some(if sign == num_bigint::Sign::Minus {
+        (m as i128).wrapping_neg()
+    } else {
+        m as i128
+    })
+}
+
+fn class(s: &[u8]) -> String {
+    let n = s.iter().position(|b| b & 0x80 == 0).map(|p| p + 1);
+    match n {
+        None => format!("unterminated-len{}", s.len().min(41)),
+        Some(n) => {
+            let bucket = match n {
+                0..=3 => "1-3",
+                4..=8 => "4-8",
+                9 => "9",
+                10 => "10",
+                11..=17 => "11-17",
+                18 => "18",
+                19 => "19",
+                20 => "20",
+                21..=24 => "21-24",
+                _ => "25+",
+            };
+            format!("len{bucket}")
+        }
+    }
+}
+
+/// Check every decoder on the byte string `s` (a number possibly followed by other bytes).
+pub fn check_string(ctx: &mut Ctx, s: &[u8], deep: bool) {
+    let want_u = decode_leb(s).ok();
+    let want_s = decode_sleb(s).ok();
+    let cls = class(s);
+    let input = || json!({"bytes": hex(s)});
+    // ---- standalone bignum decoders
+    {
+        let mut r: &[u8] = s;
+        let got = catch(|| Nat::decode(&mut r).map(|n| (n, s.len() - r.len())));
+        match (got, &want_u) {
+            (Err(p), _) => ctx.violation(&format!("panic|Nat::decode|{}|{cls}", p.location), &p.message, input()),
+            (Ok(Ok((n, used))), Some((v, k))) => {
+                if n.0 != *v || used != *k {
+                    ctx.violation(
+                        &format!("wrong-value|Nat::decode|{cls}"),
+                        &format!("got {} consumed {used}, want {v} consumed {k}", n.0),
+                        input(),
+                    );
+                }
+            }
+            (Ok(Ok((n, _))), None) => ctx.violation(
+                &format!("accept-unterminated|Nat::decode|{cls}"),
+                &format!("returned {} for an unterminated string", n.0),
+                input(),
+            ),
+            (Ok(Err(e)), Some((v, _))) => ctx.violation(
+                &format!("reject-valid|Nat::decode|{cls}"),
+                &format!("error {e} but the string denotes {v}"),
+                input(),
+            ),
+            (Ok(Err(_)), None) => {}
+        }
+    }
+    {
+        let mut r: &[u8] = s;
+        let got = catch(|| Int::decode(&mut r).map(|n| (n, s.len() - r.len())));
+        match (got, &want_s) {
+            (Err(p), _) => ctx.violation(&format!("panic|Int::decode|{}|{cls}", p.location), &p.message, input()),
+            (Ok(Ok((n, used))), Some((v, k))) => {
+                if n.0 != *v || used != *k {
+                    ctx.violation(
+                        &format!("wrong-value|Int::decode|{cls}"),
+                        &format!("got {} consumed {used}, want {v} consumed {k}", n.0),
+                        input(),
+                    );
+                }
+            }
+            (Ok(Ok((n, _))), None) => ctx.violation(
+                &format!("accept-unterminated|Int::decode|{cls}"),
+                &format!("returned {} for an unterminated string", n.0),
+                input(),
+            ),
+            (Ok(Err(e)), Some((v, _))) => ctx.violation(
+                &format!("reject-valid|Int::decode|{cls}"),
+                &format!("error {e} but the string denotes {v}"),
+                input(),
+            ),
+            (Ok(Err(_)), None) => {}
+        }
+    }
+    // ---- 128-bit decoders
+    {
+        let mut r: &[u8] = s;
+        let got = catch(|| cleb::decode_nat(&mut r).map(|n| (n, s.len() - r.len())));
+        let want = want_u.as_ref().map(|(v, k)| (u128_of(v), *k));
+        match (got, want) {
+            (Err(p), _) => ctx.violation(&format!("panic|decode_nat|{}|{cls}", p.location), &p.message, input()),
+            (Ok(Ok((n, used))), Some((Some(v), k))) => {
+                if n != v || used != k {
+                    ctx.violation(
+                        &format!("wrong-value|decode_nat|{cls}"),
+                        &format!("got {n} consumed {used}, want {v} consumed {k}"),
+                        input(),
+                    );
+                }
+            }
+            (Ok(Ok((n, _))), Some((None, _))) => ctx.violation(
+                &format!("accept-out-of-range|decode_nat|{cls}"),
+                &format!("returned {n} but the value {} does not fit u128", want_u.as_ref().unwrap().0),
+                input(),
+            ),
+            (Ok(Ok((n, _))), None) => ctx.violation(
+                &format!("accept-unterminated|decode_nat|{cls}"),
+                &format!("returned {n} for an unterminated string"),
+                input(),
+            ),
+            (Ok(Err(e)), Some((Some(v), _))) => ctx.violation(
+                &format!("reject-in-range|decode_nat|{cls}"),
+                &format!("error {e} but the string denotes {v} which fits u128"),
+                input(),
+            ),
+            (Ok(Err(_)), _) => {}
+        }
+    }
+    {
+        let mut r: &[u8] = s;
+        let got = catch(|| cleb::decode_int(&mut r).map(|n| (n, s.len() - r.len())));
+        let want = want_s.as_ref().map(|(v, k)| (i128_of(v), *k));
+        match (got, want) {
+            (Err(p), _) => ctx.violation(&format!("panic|decode_int|{}|{cls}", p.location), &p.message, input()),
+            (Ok(Ok((n, used))), Some((Some(v), k))) => {
+                if n != v || used != k {
+                    ctx.violation(
+                        &format!("wrong-value|decode_int|{cls}"),
+                        &format!("got {n} consumed {used}, want {v} consumed {k}"),
+                        input(),
+                    );
+                }
+            }
+            (Ok(Ok((n, _))), Some((None, _))) => ctx.violation(
+                &format!("accept-out-of-range|decode_int|{cls}"),
+                &format!("returned {n} but the value {} does not fit i128", want_s.as_ref().unwrap().0),
+                input(),
+            ),
+            (Ok(Ok((n, _))), None) => ctx.violation(
+                &format!("accept-unterminated|decode_int|{cls}"),
+                &format!("returned {n} for an unterminated string"),
+                input(),
+            ),
+            (Ok(Err(e)), Some((Some(v), _))) => ctx.violation(
+                &format!("reject-in-range|decode_int|{cls}"),
+                &format!("error {e} but the string denotes {v} which fits i128"),
+                input(),
+            ),
+            (Ok(Err(_)), _) => {}
+        }
+    }
+    if !deep {
+        return;
+    }
+    // ---- inside messages: the number, then a sentinel argument
+    let Some(k) = s.iter().position(|b| b & 0x80 == 0).map(|p| p + 1) else {
+        // unterminated: a message ending inside the number must be rejected
+        let mut m = b"DIDL\x00\x01\x7d".to_vec();
+        m.extend_from_slice(s);
+        if let Ok(Ok(v)) = catch(|| Decode!(&m, Nat)) {
+            ctx.violation(
+                &format!("accept-unterminated|Decode!(Nat)|{cls}"),
+                &format!("decoded {v}"),
+                json!({"message": hex(&m)}),
+            );
+        }
+        return;
+    };
+    let num = &s[..k];
+    let vu = want_u.as_ref().unwrap().0.clone();
+    let vs = want_s.as_ref().unwrap().0.clone();
+    let mk = |code: u8| -> Vec<u8> {
+        let mut m = b"DIDL\x00\x02".to_vec();
+        m.push(code);
+        m.push(0x7b);
+        m.extend_from_slice(num);
+        m.push(SENTINEL);
+        m
+    };
+    let nat_msg = mk(0x7d);
+    let int_msg = mk(0x7c);
+    macro_rules! in_msg {
+        ($name:expr, $msg:expr, $ty:ty, $want:expr, $eq:expr) => {{
+            let msg = &$msg;
+            let got = catch(|| Decode!(msg, $ty, u8));
+            let want = $want;
+            match (got, want) {
+                (Err(p), _) => ctx.violation(
+                    &format!("panic|{}|{}|{cls}", $name, p.location),
+                    &p.message,
+                    json!({"message": hex(msg)}),
+                ),
+                (Ok(Ok((v, sent))), Some(w)) => {
+                    if !$eq(&v, &w) || sent != SENTINEL {
+                        ctx.violation(
+                            &format!("wrong-value|{}|{cls}", $name),
+                            &format!("got {v:?} sentinel {sent:#x}, want {w:?}"),
+                            json!({"message": hex(msg)}),
+                        );
+                    }
+                }
+                (Ok(Ok((v, _))), None) => ctx.violation(
+                    &format!("accept-out-of-range|{}|{cls}", $name),
+                    &format!("got {v:?} for a value outside the host range"),
+                    json!({"message": hex(msg)}),
+                ),
+                (Ok(Err(e)), Some(w)) => ctx.violation(
+                    &format!("reject-valid|{}|{cls}", $name),
+                    &format!("error {} but the value is {w:?}", e.to_string().lines().next().unwrap_or("")),
+                    json!({"message": hex(msg)}),
+                ),
+                (Ok(Err(_)), None) => {}
+            }
+        }};
+    }
+    in_msg!("Decode!(nat,Nat)", nat_msg, Nat, Some(vu.clone()), |a: &Nat, b: &BigUint| a.0 == *b);
+    in_msg!("Decode!(int,Int)", int_msg, Int, Some(vs.clone()), |a: &Int, b: &BigInt| a.0 == *b);
+    in_msg!("Decode!(nat,Int)", nat_msg, Int, Some(BigInt::from(vu.clone())), |a: &Int, b: &BigInt| a.0
+        == *b);
+    in_msg!("Decode!(nat,u128)", nat_msg, u128, u128_of(&vu), |a: &u128, b: &u128| a == b);
+    in_msg!("Decode!(int,i128)", int_msg, i128, i128_of(&vs), |a: &i128, b: &i128| a == b);
+    in_msg!(
+        "Decode!(nat,i128)",
+        nat_msg,
+        i128,
+        i128_of(&BigInt::from(vu.clone())),
+        |a: &i128, b: &i128| a == b
+    );
+    // vectors and maps (fast paths): vec nat = [n, 7, n]; vec record {text; int}; vec record {nat8; nat}
+    {
+        let mut m = b"DIDL\x01\x6d\x7d\x02\x00\x7b\x03".to_vec();
+        m.extend_from_slice(num);
+        m.push(7);
+        m.extend_from_slice(num);
+        m.push(SENTINEL);
+        let got = catch(|| Decode!(&m, Vec<Nat>, u8));
+        match got {
+            Err(p) => ctx.violation(&format!("panic|Decode!(Vec<Nat>)|{}|{cls}", p.location), &p.message, json!({"message": hex(&m)})),
+            Ok(Ok((v, sent))) => {
+                if v.len() != 3 || v[0].0 != vu || v[1].0 != BigUint::from(7u8) || v[2].0 != vu || sent != SENTINEL {
+                    ctx.violation(&format!("wrong-value|Decode!(Vec<Nat>)|{cls}"), &format!("got {v:?} want [{vu},7,{vu}]"), json!({"message": hex(&m)}));
+                }
+            }
+            Ok(Err(e)) => ctx.violation(&format!("reject-valid|Decode!(Vec<Nat>)|{cls}"), &e.to_string(), json!({"message": hex(&m)})),
+        }
+        // the same bytes as vec int on the wire decoded at Vec<Int>
+        let mut m2 = m.clone();
+        m2[6] = 0x7c;
+        let want2 = [vs.clone(), BigInt::from(7), vs.clone()];
+        // 7 as sleb is 0x07: same byte
+        let got = catch(|| Decode!(&m2, Vec<Int>, u8));
+        match got {
+            Err(p) => ctx.violation(&format!("panic|Decode!(Vec<Int>)|{}|{cls}", p.location), &p.message, json!({"message": hex(&m2)})),
+            Ok(Ok((v, sent))) => {
+                if v.len() != 3 || v.iter().zip(want2.iter()).any(|(a, b)| a.0 != *b) || sent != SENTINEL {
+                    ctx.violation(&format!("wrong-value|Decode!(Vec<Int>)|{cls}"), &format!("got {v:?} want {want2:?}"), json!({"message": hex(&m2)}));
+                }
+            }
+            Ok(Err(e)) => ctx.violation(&format!("reject-valid|Decode!(Vec<Int>)|{cls}"), &e.to_string(), json!({"message": hex(&m2)})),
+        }
+        // vec nat on the wire at Vec<Int>
+        let got = catch(|| Decode!(&m, Vec<Int>, u8));
+        if let Ok(Ok((v, _))) = &got {
+            if v.len() != 3 || v[0].0 != BigInt::from(vu.clone()) {
+                ctx.violation(&format!("wrong-value|Decode!(vec nat,Vec<Int>)|{cls}"), &format!("got {v:?}"), json!({"message": hex(&m)}));
+            }
+        } else if let Err(p) = got {
+            ctx.violation(&format!("panic|Decode!(vec nat,Vec<Int>)|{}|{cls}", p.location), &p.message, json!({"message": hex(&m)}));
+        } else {
+            ctx.violation(&format!("reject-valid|Decode!(vec nat,Vec<Int>)|{cls}"), "error", json!({"message": hex(&m)}));
+        }
+        // untyped
+        let got = catch(|| IDLArgs::from_bytes(&m2));
+        match got {
+            Err(p) => ctx.violation(&format!("panic|from_bytes(vec int)|{}|{cls}", p.location), &p.message, json!({"message": hex(&m2)})),
+            Ok(Ok(a)) => {
+                let ok = match a.args.first() {
+                    Some(candid::IDLValue::Vec(xs)) => {
+                        xs.len() == 3 && matches!(&xs[0], candid::IDLValue::Int(i) if i.0 == vs) && matches!(&xs[2], candid::IDLValue::Int(i) if i.0 == vs)
+                    }
+                    _ => false,
+                };
+                if !ok {
+                    ctx.violation(&format!("wrong-value|from_bytes(vec int)|{cls}"), &format!("got {a}"), json!({"message": hex(&m2)}));
+                }
+            }
+            Ok(Err(e)) => ctx.violation(&format!("reject-valid|from_bytes(vec int)|{cls}"), &e.to_string(), json!({"message": hex(&m2)})),
+        }
+    }
+    {
+        // vec record { text; int } = [("k", n)] at BTreeMap<String, Int>; vec record { nat8; nat } at BTreeMap<u8, Nat>
+        let mut m = b"DIDL\x02\x6d\x01\x6c\x02\x00\x71\x01\x7c\x02\x00\x7b\x01\x01k".to_vec();
+        m.extend_from_slice(num);
+        m.push(SENTINEL);
+        let got = catch(|| Decode!(&m, BTreeMap<String, Int>, u8));
+        match got {
+            Err(p) => ctx.violation(&format!("panic|Decode!(BTreeMap<String,Int>)|{}|{cls}", p.location), &p.message, json!({"message": hex(&m)})),
+            Ok(Ok((v, sent))) => {
+                if v.len() != 1 || v.get("k").map(|x| &x.0) != Some(&vs) || sent != SENTINEL {
+                    ctx.violation(&format!("wrong-value|Decode!(BTreeMap<String,Int>)|{cls}"), &format!("got {v:?} want k->{vs}"), json!({"message": hex(&m)}));
+                }
+            }
+            Ok(Err(e)) => ctx.violation(&format!("reject-valid|Decode!(BTreeMap<String,Int>)|{cls}"), &e.to_string(), json!({"message": hex(&m)})),
+        }
+        let mut m = b"DIDL\x02\x6d\x01\x6c\x02\x00\x7b\x01\x7d\x02\x00\x7b\x01\x05".to_vec();
+        m.extend_from_slice(num);
+        m.push(SENTINEL);
+        let got = catch(|| Decode!(&m, BTreeMap<u8, Nat>, u8));
+        match got {
+            Err(p) => ctx.violation(&format!("panic|Decode!(BTreeMap<u8,Nat>)|{}|{cls}", p.location), &p.message, json!({"message": hex(&m)})),
+            Ok(Ok((v, sent))) => {
+                if v.len() != 1 || v.get(&5).map(|x| &x.0) != Some(&vu) || sent != SENTINEL {
+                    ctx.violation(&format!("wrong-value|Decode!(BTreeMap<u8,Nat>)|{cls}"), &format!("got {v:?} want 5->{vu}"), json!({"message": hex(&m)}));
+                }
+            }
+            Ok(Err(e)) => ctx.violation(&format!("reject-valid|Decode!(BTreeMap<u8,Nat>)|{cls}"), &e.to_string(), json!({"message": hex(&m)})),
+        }
+    }
+}
+
+/// Encoders emit the minimal string.
+fn check_value(ctx: &mut Ctx, u: &BigUint, i: &BigInt) {
+    let input = || json!({"nat": u.to_string(), "int": i.to_string()});
+    let want_u = encode_leb(u);
+    let want_i = encode_sleb(i);
+    let mut out = Vec::new();
+    match catch(|| Nat(u.clone()).encode(&mut out)) {
+        Err(p) => ctx.violation(&format!("panic|Nat::encode|{}", p.location), &p.message, input()),
+        Ok(_) => {
+            if out != want_u {
+                ctx.violation("non-minimal|Nat::encode", &format!("got {} want {}", hex(&out), hex(&want_u)), input());
+            }
+        }
+    }
+    let mut out = Vec::new();
+    match catch(|| Int(i.clone()).encode(&mut out)) {
+        Err(p) => ctx.violation(&format!("panic|Int::encode|{}", p.location), &p.message, input()),
+        Ok(_) => {
+            if out != want_i {
+                ctx.violation("non-minimal|Int::encode", &format!("got {} want {}", hex(&out), hex(&want_i)), input());
+            }
+        }
+    }
+    if let Some(x) = u128_of(u) {
+        let mut out = Vec::new();
+        let _ = cleb::encode_nat(&mut out, x);
+        if out != want_u {
+            ctx.violation("non-minimal|encode_nat", &format!("got {} want {}", hex(&out), hex(&want_u)), input());
+        }
+        match catch(|| Encode!(&x)) {
+            Ok(Ok(b)) => {
+                let mut w = b"DIDL\x00\x01\x7d".to_vec();
+                w.extend(&want_u);
+                if b != w {
+                    ctx.violation("non-minimal|Encode!(u128)", &format!("got {} want {}", hex(&b), hex(&w)), input());
+                }
+            }
+            _ => ctx.violation("fail|Encode!(u128)", "encoding failed", input()),
+        }
+    }
+    if let Some(x) = i128_of(i) {
+        let mut out = Vec::new();
+        let _ = cleb::encode_int(&mut out, x);
+        if out != want_i {
+            ctx.violation("non-minimal|encode_int", &format!("got {} want {}", hex(&out), hex(&want_i)), input());
+        }
+        match catch(|| Encode!(&x)) {
+            Ok(Ok(b)) => {
+                let mut w = b"DIDL\x00\x01\x7c".to_vec();
+                w.extend(&want_i);
+                if b != w {
+                    ctx.violation("non-minimal|Encode!(i128)", &format!("got {} want {}", hex(&b), hex(&w)), input());
+                }
+            }
+            _ => ctx.violation("fail|Encode!(i128)", "encoding failed", input()),
+        }
+    }
+    match catch(|| Encode!(&Nat(u.clone()), &Int(i.clone()))) {
+        Ok(Ok(b)) => {
+            let mut w = b"DIDL\x00\x02\x7d\x7c".to_vec();
+            w.extend(&want_u);
+            w.extend(&want_i);
+            if b != w {
+                ctx.violation("non-minimal|Encode!(Nat,Int)", &format!("got {} want {}", hex(&b), hex(&w)), input());
+            }
+        }
+        _ => ctx.violation("fail|Encode!(Nat,Int)", "encoding failed", input()),
+    }
+}
+
+fn boundary_string(rng: &mut Rng) -> Vec<u8> {
+    // n-1 continuation groups then the top two groups enumerated by the rng
+    let n = *rng.pick(&[7usize, 8, 9, 10, 11, 17, 18, 19, 20, 21, 22, 37, 38]);
+    let fill = *rng.pick(&[0x80u8, 0xff, 0x81, 0xfe, 0xc0, 0xbf]);
+    let mut s: Vec<u8> = (0..n.saturating_sub(2))
+        .map(|_| if rng.chance(1, 4) { rng.next() as u8 | 0x80 } else { fill })
+        .collect();
+    s.push(rng.next() as u8 | 0x80);
+    s.push(rng.next() as u8 & 0x7f);
+    s
+}
+
+pub fn run(ctx: &mut Ctx) {
+    let thorough = ctx.thorough();
+    // exhaustive: all strings of length <= 2 (every shard takes a slice); length 3 in thorough
+    let limit: u64 = if thorough { 256 + 65536 + (1 << 24) } else { 256 + 65536 };
+    let (shard, n) = (ctx.shard, ctx.nshards);
+    let mut done = 0u64;
+    let mut complete = false;
+    ctx.cases("exhaustive-short", if thorough { 0.45 } else { 0.25 }, |ctx, _rng| {
+        // one "case" = a block of 4096 consecutive strings
+        let local = ctx.case & ((1 << 40) - 1); // = shard + k * nshards
+        let start = local * 4096;
+        if start >= limit {
+            complete = true; // every earlier block of this shard has been enumerated
+            ctx.stats.evaluations -= 1;
+            ctx.stop_family = true;
+            return;
+        }
+        for idx in start..(start + 4096).min(limit) {
+            let s: Vec<u8> = if idx < 256 {
+                vec![idx as u8]
+            } else if idx < 256 + 65536 {
+                let x = idx - 256;
+                vec![(x >> 8) as u8, x as u8]
+            } else {
+                let x = idx - 256 - 65536;
+                vec![(x >> 16) as u8, (x >> 8) as u8, x as u8]
+            };
+            check_string(ctx, &s, idx < 256 + 65536 && idx % 7 == 0);
+            done += 1;
+            if idx % 1024 == 0 {
+                ctx.nontrivial(hash_bytes(&s));
+            }
+        }
+        ctx.stats.evaluations += 4095;
+    });
+    ctx.count_n("cover:exhaustive-strings", done);
+    let _ = (shard, n);
+    if complete {
+        ctx.stats.exhaustive.push(format!(
+            "all byte strings of length <= {} through Nat::decode, Int::decode, decode_nat, decode_int",
+            if thorough { 3 } else { 2 }
+        ));
+    }
+    ctx.cases("boundary", 0.3, |ctx, rng| {
+        let s = boundary_string(rng);
+        ctx.count(&format!("cover:{}", class(&s)));
+        check_string(ctx, &s, true);
+        ctx.nontrivial(hash_bytes(&s));
+        ctx.sample(|| json!({"bytes": hex(&s)}));
+    });
+    ctx.cases("random", 0.2, |ctx, rng| {
+        let n = 1 + rng.usize(40);
+        let mut s = rng.bytes(n);
+        if rng.chance(3, 4) {
+            // make it terminated somewhere
+            let l = s.len();
+            s[l - 1] &= 0x7f;
+            for b in &mut s[..l - 1] {
+                if rng.chance(7, 8) {
+                    *b |= 0x80;
+                }
+            }
+        }
+        ctx.count(&format!("cover:{}", class(&s)));
+        check_string(ctx, &s, true);
+        ctx.nontrivial(hash_bytes(&s));
+    });
+    ctx.cases("values", if thorough { 0.05 } else { 0.25 }, |ctx, rng| {
+        let u = gen_biguint(rng);
+        let i = gen_bigint(rng);
+        check_value(ctx, &u, &i);
+        // minimal and padded encodings of the same values decode back
+        let pad = rng.usize(4);
+        let s = leb_padded(&u, pad);
+        check_string(ctx, &s, true);
+        let s = sleb_padded(&i, pad);
+        check_string(ctx, &s, true);
+        ctx.nontrivial(hash_bytes(&s) ^ 1);
+    });
+}
